@@ -14,11 +14,12 @@ CARGO_TARGET_DIR=$B/feat-none cargo build --offline --quiet --no-default-feature
 wait
 CARGO_TARGET_DIR=$B/main cargo build --offline --quiet --release --bin mon 2>/dev/null &
 CARGO_TARGET_DIR=$B/deser cargo build --offline --quiet --release --features deser --bin mon 2>/dev/null &
+CARGO_TARGET_DIR=$B/allfeat cargo build --offline --quiet --release --features par_iter,deser --bin mon 2>/dev/null &
 CARGO_TARGET_DIR=$B/feat-std cargo build --offline --quiet --no-default-features --features std --bin mon 2>/dev/null &
 CARGO_TARGET_DIR=$B/feat-std+macros cargo build --offline --quiet --no-default-features --features std,macros --bin mon 2>/dev/null &
 wait
 CARGO_TARGET_DIR=$B/feat-std+macros+par_iter+deser cargo build --offline --quiet --no-default-features --features std,macros,par_iter,deser --bin mon 2>/dev/null &
-( cd typecheck && CARGO_TARGET_DIR=$B/typecheck cargo +nightly build --offline --quiet --features freeze 2>/dev/null; CARGO_TARGET_DIR=$B/typecheck-nostd cargo +nightly build --offline --quiet --no-default-features --features freeze 2>/dev/null ) &
+( cd typecheck && CARGO_TARGET_DIR=$B/typecheck cargo +nightly build --offline --quiet --features freeze 2>/dev/null; CARGO_TARGET_DIR=$B/typecheck-nostd cargo +nightly build --offline --quiet --no-default-features --features freeze 2>/dev/null; CARGO_TARGET_DIR=$B/typecheck-par cargo +nightly build --offline --quiet --features freeze,par_iter 2>/dev/null ) &
 RUSTFLAGS="-Zsanitizer=address -Cforce-frame-pointers=yes" CARGO_TARGET_DIR=$B/asan cargo +nightly build --offline --quiet --target x86_64-unknown-linux-gnu --bin mon 2>/dev/null &
 CARGO_TARGET_DIR=$B/forbid cargo rustc --manifest-path /repo/indextree/Cargo.toml --lib --offline --quiet -- -F unsafe_code 2>/dev/null &
 wait
